@@ -1,4 +1,4 @@
-"""C14 — password authentication (DESIGN.md §4 C14)."""
+"""C14 — password authentication succeeds only with the current password of the account (DESIGN.md §4 C14)."""
 
 PKGS = ["./internal/auth/pass_table/", "./internal/endpoint/smtp/"]
 
@@ -14,10 +14,34 @@ def run(c):
     if c.replay:
         harness(c, 1, replay_ops=c.replay.get("replay_ops") or [])
     else:
-        harness(c, 3000 if c.thorough else 300)
+        harness(c, 12000 if c.thorough else 500)
 
     def search():
         c.seed += 1000
-        harness(c, 1500)
+        harness(c, 4000)
 
-    return c.finish(rule="", explanation="", search=search)
+    c.assumptions += [
+        "hash functions are symbolic: verifying p against a row computed from q succeeds iff p = q (argon2, salted sha256: collision freedom assumed) "
+        "or iff the 72-byte cyclic expansions of p++[0] and q++[0] are equal (bcrypt: x/crypto's key schedule, stated in the model and exercised on the real library, "
+        "including passwords of 71/72/73 bytes, longer ones and embedded NUL bytes)",
+        "PRECIS UsernameCaseMapped.CompareKey, the auth_map_normalize functions and the user-name map tables are parameters of the model; every theorem holds for ALL such functions "
+        "(no law is assumed about them); in differential runs their values over the history's names are computed by the real functions and shipped on the op line",
+        "one authentication provider behind SASLAuth (the loop over several providers is not modelled); the credentials table itself does not fail (in-memory table)",
+        "submission gate: the command sequencing of go-smtp's Conn (EHLO/AUTH/MAIL/RCPT/DATA/RSET) is modelled together with Session.Mail; a second EHLO inside an open transaction is not generated "
+        "(it replaces the Session while the Conn keeps its transaction state; outside C14)",
+    ]
+    c.trusted_base += [
+        "golang.org/x/crypto bcrypt/argon2, crypto/sha256 (symbolic in the model), golang.org/x/text/secure/precis (parameter), emersion/go-sasl PLAIN framing, foxcpp/go-smtp command loop (modelled, checked differentially)",
+    ]
+    return c.finish(
+        rule="(1) histories of 1-12 (thorough: 1-16) operations {create with bcrypt/argon2/sha256/unknown scheme, set-password, delete, PLAIN with and without authorization identity, LOGIN, "
+        "direct table authentication} over user names in exact / upper / mixed / title case, NFD, fullwidth spellings plus names PRECIS rejects, passwords that are empty, ASCII, non-ASCII, "
+        "not UTF-8, 71/72/73 bytes, 72 bytes + different tails, hundreds of bytes, with NUL bytes; configurations: auth_map_normalize nil/auto/precis*/casefold/noop x "
+        "auth_map nil/identity/email_localpart(_optional)/static (idempotent and not)/regexp (idempotent and not), LOGIN on/off; run against the REAL pass_table + SASLAuth + table modules and against the Lean model; "
+        "the monitor keeps its own account -> last-password map and also sends every credential pair through the other mechanism. "
+        "(2) SMTP command sequences of 1-14 commands (plausible sessions with commands dropped/duplicated/moved, and random ones) against real submission and smtp endpoints over TCP, reply codes compared with the model. "
+        "(3) call skeletons of the anchored functions re-derived from the current sources and compared with the expectation the model was written from. distinct = distinct op lines",
+        explanation="theorems over all histories, names, passwords, schemes, normalisation functions and user-name maps (no hypothesis on them); gate theorem over all command sequences; "
+        "model tied to the code by differential runs of whole histories / sessions and by regenerated call skeletons",
+        search=search,
+    )
